@@ -1,2 +1,6 @@
 import ZbossModel.Props.C13
-#print axioms Zboss.Host.C13_placeholder
+#print axioms Zboss.Host.C13_no_residue
+#print axioms Zboss.Host.C13_finished_has_no_listener
+#print axioms Zboss.Host.C13_response_to_running
+#print axioms Zboss.Host.C13_finish_removes
+#print axioms Zboss.Host.C13_no_new_listeners
